@@ -109,6 +109,47 @@ def build(variant='plain', quiet=False):
         lock.close()
 
 
+def build_aux(name, sources, cxx, flags, ld=(), quiet=True):
+    """Build a small auxiliary binary (memalgo, portable, sched) keyed by the same content hash. Returns its path."""
+    h = _hash_tree()
+    h.update(json.dumps([name, cxx, list(flags), list(ld), [os.path.basename(s) for s in sources]]).encode())
+    key = h.hexdigest()[:20]
+    os.makedirs(BUILD, exist_ok=True)
+    out = os.path.join(BUILD, 'aux-%s-%s' % (name, key))
+    binary = os.path.join(out, name)
+    lock = open(os.path.join(BUILD, '.lock-aux-' + name), 'w')
+    fcntl.flock(lock, fcntl.LOCK_EX)
+    try:
+        if os.path.exists(os.path.join(out, '.ok')):
+            os.utime(out)
+            return binary
+        os.makedirs(out, exist_ok=True)
+        cmd = [cxx] + list(flags) + ['-I' + os.path.join(REPO, 'include'), '-I' + os.path.join(ROOT, 'sim')] + list(sources) + ['-o', binary] + list(ld)
+        r = subprocess.run(cmd, stdout=subprocess.PIPE, stderr=subprocess.STDOUT, text=True)
+        if r.returncode != 0:
+            shutil.rmtree(out, ignore_errors=True)
+            raise BuildFailure('compilation of %s failed:\n%s\n%s' % (name, ' '.join(cmd), r.stdout[-3000:]), cmd)
+        open(os.path.join(out, '.ok'), 'w').write(key)
+        old = sorted([d for d in glob.glob(os.path.join(BUILD, 'aux-%s-*' % name)) if d != out], key=os.path.getmtime)
+        for d in old[:-1]:
+            shutil.rmtree(d, ignore_errors=True)
+        return binary
+    finally:
+        fcntl.flock(lock, fcntl.LOCK_UN)
+        lock.close()
+
+
+def write_evidence(prop, level, tier, seed, coverage, assumptions, wall, nviol):
+    ev = {'property_id': prop, 'tier': tier, 'seed': seed, 'level': level, 'coverage': coverage, 'assumptions': assumptions,
+          'wall_s': round(wall, 2), 'violations': nviol}
+    os.makedirs(EVIDENCE, exist_ok=True)
+    tmp = os.path.join(EVIDENCE, prop + '.json.tmp')
+    with open(tmp, 'w') as f:
+        json.dump(ev, f, indent=1, sort_keys=True)
+    os.replace(tmp, os.path.join(EVIDENCE, prop + '.json'))
+    return ev
+
+
 def sim_list(binary):
     r = subprocess.run([binary, 'list'], stdout=subprocess.PIPE, text=True)
     return json.loads(r.stdout)
@@ -419,6 +460,30 @@ CHECKS = {
 }
 
 
+def _c15_runner(prop, tier, seed, seconds):
+    import c15
+    return c15.run(prop, tier, seed, seconds)
+
+
+CHECKS['C15'] = dict(level='fault_enumeration', runner=_c15_runner, engine='memalgo')
+
+
+def _c16_runner(prop, tier, seed, seconds):
+    import c16
+    return c16.run(prop, tier, seed, seconds)
+
+
+CHECKS['C16'] = dict(level='exploration', runner=_c16_runner, engine='portable')
+
+
+def _c20_runner(prop, tier, seed, seconds):
+    import c20
+    return c20.run(prop, tier, seed, seconds)
+
+
+CHECKS['C20'] = dict(level='exploration', runner=_c20_runner, engine='sched')
+
+
 def prop_spec(prop):
     return CHECKS[prop]
 
@@ -545,6 +610,15 @@ def run_sim_check(prop, tier, seed, seconds_override=None):
 
 def cmd_replay(path):
     txt = open(path).read()
+    if txt.startswith('amcsim-memalgo'):
+        import c15
+        return c15.replay(path)
+    if txt.startswith('amcsim-portable'):
+        import c16
+        return c16.replay(path)
+    if txt.startswith('amcsim-sched'):
+        import c20
+        return c20.replay(path)
     m = re.search(r'^expect (\S+) (\S+) (\S+)', txt, re.M)
     variant = 'asan' if ('CRASH' in txt and os.environ.get('VERIF_REPLAY_VARIANT') is None) else os.environ.get('VERIF_REPLAY_VARIANT', 'plain')
     binary = build(variant)
@@ -588,7 +662,14 @@ def main(argv):
     try:
         if cmd == 'build':
             for v in (rest or ['plain', 'asan']):
-                build(v)
+                if v == 'aux':
+                    import c15, c16, c20
+                    with cf.ThreadPoolExecutor(NPROC) as ex:
+                        list(ex.map(lambda b: c15.build_one(*b), c15.builds('quick')))
+                        list(ex.map(c16.build_one, c16.QUICK))
+                    c20.build()
+                else:
+                    build(v)
             return 0
         if cmd == 'manifest':
             import manifestgen
